@@ -70,6 +70,15 @@ def gen_case(rng, idx):
             nid += n
             ncmds += n
             ops.append({"op": "burst", "window": rng.randint(1, 8), "cmds": cmds})
+    if rng.random() < 0.45:                       # user code that takes time: the iterable, the callbacks
+        for op in ops:
+            if op["op"] == "idle":
+                continue
+            ids_ = [i for i, _ in op_cmds(op)]
+            pick = lambda: rng.choice([1, 1, 2, T // 2, T - 1, T, T + 1, 2 * T, 3 * T])
+            if op["op"] == "burst":
+                op["iter"] = dict((str(i), pick()) for i in ids_ if rng.random() < 0.4)
+            op["cb"] = dict((str(i), pick()) for i in ids_ if rng.random() < 0.4)
     sizes = [16, 64, 100, 120, 128, 230, 240, 256, 256, 500]
     style = rng.choice(["same", "same", "independent", "growing", "shrinking"])
     base = rng.choice(sizes)
@@ -159,6 +168,40 @@ def history_cases():
                                    "full_replies": True},
                         "ops": ops})
             idx += 1
+    return out
+
+
+def slow_user_code_cases():
+    """The clock advances while user code runs.  (1) a slow command iterable: the deadline of a command counts from
+    its own transmission; (2) a slow callback overlapping the in-time reply of another command that is on its last
+    transmission: the reply is in the socket before that command's timeout expires."""
+    out, idx, T = [], 3000000, 10
+    for tries in (1, 2, 3):
+        for it in (3, T - 1, T, 2 * T):
+            # commands 0..3, all slow to yield; requests of 1 and 2 lost on every try but the last
+            plan = dict((str(k), {"lost": True, "replies": []}) for k in (1, 2))
+            out.append({"n_tries": tries, "timeout": T, "advance_seq": 0, "mood": "slow-iterable", "idx": idx,
+                        "buffer_size": 256, "positional": False,
+                        "policy": {"kind": "sim", "plan": plan, "exact": [], "max_selects": 300},
+                        "ops": [{"op": "burst", "window": 3, "cmds": [[i, i % 2] for i in range(4)],
+                                 "iter": dict((str(i), it) for i in range(4)), "cb": {}}]})
+            idx += 1
+        for cbd in (T - 2, T + 5, 3 * T):
+            for lat in (2, T - 1, T):
+                # command 0 answered at once, its callback runs for cbd ticks; command 1's reply to its LAST
+                # transmission arrives lat ticks after that transmission (within its timeout)
+                # transmissions: 0 = command 0, 1 .. tries = command 1 (all but the last lost); command 0 (long
+                # extra timeout) is answered just after command 1's last transmission at (tries - 1) * (T + 1)
+                plan = dict((str(k), {"lost": True, "replies": []}) for k in range(1, tries))
+                plan[str(tries)] = {"lost": False, "replies": [[lat, None]]}
+                if tries > 1:
+                    plan["0"] = {"lost": False, "replies": [[1 + (tries - 1) * (T + 1), None]]}
+                out.append({"n_tries": tries, "timeout": T, "advance_seq": 0, "mood": "slow-callback", "idx": idx,
+                            "buffer_size": 256, "positional": False,
+                            "policy": {"kind": "sim", "plan": plan, "exact": [], "max_selects": 300},
+                            "ops": [{"op": "burst", "window": 2, "cmds": [[0, 5 * T if tries > 1 else 0], [1, 0]],
+                                     "iter": {}, "cb": {"0": cbd}}]})
+                idx += 1
     return out
 
 
@@ -296,8 +339,10 @@ def coq_calls(c, res):
     long = any(len(b["trace"]) > 4000 for b in res["bursts"])
     for (op, idle), b in zip(calls_of(c), res["bursts"]):
         w = op["window"] if op["op"] == "burst" else 1
-        calls.append("(Call (Cf %s %s %s) %s %s %s)" % (
-            zlit(w), zlit(c["n_tries"]), zlit(c["timeout"]), coq_cmds(op_cmds(op)), zlit(idle),
+        durs = lambda d: vlist("(%s, %s)" % (zlit(int(i)), zlit(v)) for i, v in sorted(d.items(), key=lambda kv: int(kv[0])))
+        calls.append("(Call (Cf %s %s %s %s %s) %s %s %s)" % (
+            zlit(w), zlit(c["n_tries"]), zlit(c["timeout"]), durs(op.get("iter", {})), durs(op.get("cb", {})),
+            coq_cmds(op_cmds(op)), zlit(idle),
             coq_events(b["events"])))
         oc = coq_outcome(b["outcome"])
         if oc is None or any(t[0] == "select" and not isinstance(t[1], int) for t in b["trace"]):
@@ -459,6 +504,16 @@ def oracle(c, res):
                          % (cid, len(sends.get(cid, [])), n_tries))
                 if cid in answered:
                     fail("timeout-despite-reply", "timeout error for command %d although its reply had been received" % cid)
+                elif sends.get(cid):
+                    # a reply that had reached the socket before the command's last timeout expired counts as received
+                    t_last = sends[cid][-1][2]
+                    for arrival, rc, seq, src in b.get("pending") or []:
+                        if rc == RC_OK and tx_info.get(src, (None,))[0] == cid and arrival <= t_last + T + extra[cid]:
+                            fail("timeout-despite-reply-in-socket",
+                                 "timeout error for command %d (last sent at %d, timeout %d) although the reply to its "
+                                 "transmission %d had arrived at %d and was waiting in the socket"
+                                 % (cid, t_last, T + extra[cid], src, arrival))
+                            break
     return bad
 
 
@@ -488,8 +543,10 @@ def run(chk, args):
     chk.trusted += ["harness/scpsim.py: scripted socket / select / clock (the environment of the real SCPConnection)",
                     "CPython dict insertion order (outstanding_packets) mirrored by a list"]
     chk.assumptions += [
-        "the clock is read as an integer number of ticks and only moves inside select (a wall-clock race between "
-        "two time.time() calls of one iteration is outside the model)",
+        "the clock is read as an integer number of ticks; it moves inside select, while the command iterable yields a "
+        "command and inside callbacks (scripted per-command durations, mirrored by the model: every clock reading of "
+        "send_scp_burst -- deadline of a new command, select timeout, retransmission scan -- is covered in the order "
+        "the code makes it); time passing between two adjacent statements of the library itself is not modelled",
         "datagrams are at least 14 bytes and not longer than the receive length; callbacks do not raise and do not "
         "use the connection; 1 <= window <= 65536, tries >= 1",
         "the network may lose, duplicate, delay and reorder but not forge datagrams (Causal); reply_matches needs "
@@ -502,7 +559,7 @@ def run(chk, args):
                  if "case" in f.get("replay", {})]
     else:
         n = 1500 if chk.tier == "quick" else 40000
-        cases = special_cases(chk.tier) + history_cases() + enumerated_cases(chk.tier) + [gen_case(chk.rng, i) for i in range(n)]
+        cases = special_cases(chk.tier) + history_cases() + slow_user_code_cases() + enumerated_cases(chk.tier) + [gen_case(chk.rng, i) for i in range(n)]
     corpus = os.path.join(lib.VERIF, "corpus", "C06.json")
     if os.path.exists(corpus):
         cases = json.load(open(corpus)) + cases
@@ -588,9 +645,10 @@ def run(chk, args):
         "80% fault simulations (per-transmission outcome ok / request lost / reply lost / delayed 1-3 timeouts / "
         "duplicated / retryable rc / fatal rc, select waking exactly at or one tick after the deadline, late replies "
         "crossing into the next call), 20% raw event scripts (arbitrary duplication and reordering, clock steps "
-        "including backwards), the buffer size an argument of each call (same / independent / growing / shrinking along "
+        "including backwards), in 45% of them slow user code (the iterable takes 1..3T ticks to yield a command, a "
+        "callback runs 1..3T ticks, replies arriving meanwhile), the buffer size an argument of each call (same / independent / growing / shrinking along "
         "the connection, two replies in five a full buffer), half the connections constructed positionally; 16 directed "
-        "histories of 2-4 calls with changing buffer sizes and full-size replies, some across a call that raised; plus three 65 537-command schedules that take the sequence counter round (two or three commands with adjacent "
+        "histories of 2-4 calls with changing buffer sizes and full-size replies, some across a call that raised; 39 directed slow-iterable / slow-callback cases; plus three 65 537-command schedules that take the sequence counter round (two or three commands with adjacent "
         "sequence numbers stuck across the wrap; one with copies "
         "of a reply arriving after 2^k commands, k = 4..16) and an exhaustive enumeration (1-2 commands, window 1-2, "
         "tries <= 3, six outcomes per possible transmission; the quick tier takes its part with <= 2 transmissions). "
